@@ -7,8 +7,13 @@
 //                                               CConnman::EvictTxPeerIfFull and through the accept path (CreateNodeFromAcceptedSocket),
 //                                               both of which call CConnman::AttemptToEvictConnection
 //   eviction drive   <seed> <n> <maxsize>        seeded random candidate sets over tiny domains (many ties)
+// The specification works with small abstract rank values; HOW they become real field values is a parameter of the replay (MAPPINGS below):
+// every candidate set is run under a coarse mapping (1 us / 1 s steps, netgroup keys spread over 64 bits) and under mappings at the finest
+// resolution of each stored type (pings 1 ns and 100 ns apart inside one microsecond and one millisecond, connection times 1 ns apart,
+// last-block / last-tx times 1 s apart, netgroup keys differing only in the low bits or only in the high bits), and under a wide one (1 ms / 1 h).
+// The candidate set is logged in abstract units as read back from the real structures through the exact inverse of the mapping.
 // The log goes to <rows.ndjson>.log (select / connman) or stdout (drive); one line per case:
-//   {"src":..,"row":i,"cands":[{id,conn,ping,blk,tx,svc,relay,bloom,grp,prefer,local,net,noban,ctype}],"choices":[id|-1,...]}
+//   {"src":..,"row":i,"cands":[{id,conn,ping,blk,tx,svc,relay,bloom,grp,prefer,local,net,noban,ctype}],"choices":[id|-1,...],"labels":["mapping/order",...]}
 #include <vfh.h>
 #include <net.h>
 #include <netaddress.h>
@@ -23,9 +28,45 @@ using namespace vfh;
 
 namespace {
 constexpr int64_t BASE_TIME = 1'700'000'000;
-constexpr int GRP_SHIFT = 50;   // keyed netgroups are spread over the 64-bit range (order preserving)
 
-uint64_t GroupKey(int64_t g) { return (uint64_t(g) << GRP_SHIFT) | uint64_t(g); }
+// How abstract rank values become real field values. All maps are strictly increasing, so the order (and every tie) of the
+// abstract values is the order of the real ones; Inverse() is exact and refuses values outside the encoding.
+struct Mapping {
+    std::string name;
+    int64_t ping_base_ns, ping_step_ns;   // m_min_ping_time (NodeClock::duration, nanoseconds)
+    int64_t conn_step_ns;                 // m_connected (NodeClock::time_point, nanoseconds)
+    int64_t sec_step;                     // m_last_block_time / m_last_tx_time (std::chrono::seconds)
+    int grp_mode;                         // 0: (g << 50) | g   1: constant high bits, g in the low bits   2: g << 50 (high bits only)
+};
+const std::vector<Mapping> MAPPINGS{
+    {"coarse", 0, 1000, 1'000'000'000, 1, 0},                 // whole microseconds, whole seconds
+    {"finest", 20'000'000, 1, 1, 1, 1},                       // 1 ns apart: all within 2 us of 20 ms; connection times 1 ns apart; keys differ in the low bits
+    {"sub_us", 20'000'000, 100, 1'000'000'000, 1, 2},         // 100 ns apart: neighbours share a microsecond; keys differ in the high bits only
+    {"wide", 0, 1'000'000, 3600LL * 1'000'000'000, 3600, 0},  // whole milliseconds, whole hours
+};
+// mappings a CNode can realise: m_connected comes from the (mock) clock in whole seconds
+const std::vector<Mapping> CONNMAN_MAPPINGS{
+    {"coarse", 0, 1000, 1'000'000'000, 1, 0},
+    {"finest_s", 20'000'000, 1, 1'000'000'000, 1, 1},
+    {"sub_us", 20'000'000, 100, 1'000'000'000, 1, 2},
+};
+constexpr uint64_t GRP_HIGH = 0x5A5A000000000000ULL;
+uint64_t GroupKey(const Mapping& m, int64_t g)
+{
+    if (g < 0 || g >= (1 << 13)) throw std::runtime_error("abstract netgroup out of range");
+    return m.grp_mode == 0 ? (uint64_t(g) << 50) | uint64_t(g) : m.grp_mode == 1 ? GRP_HIGH | uint64_t(g) : uint64_t(g) << 50;
+}
+int64_t GroupInverse(const Mapping& m, uint64_t k)
+{
+    const int64_t g = m.grp_mode == 0 ? int64_t(k >> 50) : m.grp_mode == 1 ? int64_t(k & 0xFFFF) : int64_t(k >> 50);
+    if (g < 0 || g >= (1 << 13) || GroupKey(m, g) != k) throw std::runtime_error("netgroup key outside the harness encoding");
+    return g;
+}
+int64_t ExactDiv(int64_t v, int64_t step, const char* what)
+{
+    if (v % step != 0) throw std::runtime_error(std::string(what) + " outside the harness encoding");
+    return v / step;
+}
 
 const std::vector<std::pair<std::string, Network>> NETS{{"ipv4", NET_IPV4}, {"ipv6", NET_IPV6}, {"onion", NET_ONION}, {"i2p", NET_I2P},
                                                         {"cjdns", NET_CJDNS}, {"internal", NET_INTERNAL}, {"unroutable", NET_UNROUTABLE}};
@@ -47,18 +88,18 @@ ConnectionType CTypeFromName(const std::string& s)
     throw std::runtime_error("unknown connection type " + s);
 }
 
-NodeEvictionCandidate FromJson(const UniValue& c)
+NodeEvictionCandidate FromJson(const UniValue& c, const Mapping& m)
 {
     return NodeEvictionCandidate{
         .id = I(c["id"]),
-        .m_connected = NodeSeconds{std::chrono::seconds{BASE_TIME + I(c["conn"])}},
-        .m_min_ping_time = std::chrono::microseconds{I(c["ping"])},
-        .m_last_block_time = std::chrono::seconds{I(c["blk"])},
-        .m_last_tx_time = std::chrono::seconds{I(c["tx"])},
+        .m_connected = NodeClock::time_point{std::chrono::seconds{BASE_TIME}} + std::chrono::nanoseconds{I(c["conn"]) * m.conn_step_ns},
+        .m_min_ping_time = std::chrono::nanoseconds{m.ping_base_ns + I(c["ping"]) * m.ping_step_ns},
+        .m_last_block_time = std::chrono::seconds{I(c["blk"]) * m.sec_step},
+        .m_last_tx_time = std::chrono::seconds{I(c["tx"]) * m.sec_step},
         .fRelevantServices = B(c["svc"]),
         .m_relay_txs = B(c["relay"]),
         .fBloomFilter = B(c["bloom"]),
-        .nKeyedNetGroup = GroupKey(I(c["grp"])),
+        .nKeyedNetGroup = GroupKey(m, I(c["grp"])),
         .prefer_evict = B(c["prefer"]),
         .m_is_local = B(c["local"]),
         .m_network = NetFromName(S(c["net"])),
@@ -67,20 +108,20 @@ NodeEvictionCandidate FromJson(const UniValue& c)
     };
 }
 
-// what the real structure holds, in the specification's units
-UniValue ToJson(const NodeEvictionCandidate& c)
+// what the real structure holds, in the specification's units (exact inverse of the mapping)
+UniValue ToJson(const NodeEvictionCandidate& c, const Mapping& m)
 {
+    using ns = std::chrono::nanoseconds;
     UniValue o(UniValue::VOBJ);
     o.pushKV("id", (int64_t)c.id);
-    o.pushKV("conn", (int64_t)(TicksSinceEpoch<std::chrono::seconds>(c.m_connected) - BASE_TIME));
-    o.pushKV("ping", (int64_t)std::chrono::duration_cast<std::chrono::microseconds>(c.m_min_ping_time).count());
-    o.pushKV("blk", (int64_t)c.m_last_block_time.count());
-    o.pushKV("tx", (int64_t)c.m_last_tx_time.count());
+    o.pushKV("conn", ExactDiv(std::chrono::duration_cast<ns>(c.m_connected - NodeClock::time_point{std::chrono::seconds{BASE_TIME}}).count(), m.conn_step_ns, "connection time"));
+    o.pushKV("ping", ExactDiv(std::chrono::duration_cast<ns>(c.m_min_ping_time).count() - m.ping_base_ns, m.ping_step_ns, "ping time"));
+    o.pushKV("blk", ExactDiv(c.m_last_block_time.count(), m.sec_step, "last block time"));
+    o.pushKV("tx", ExactDiv(c.m_last_tx_time.count(), m.sec_step, "last tx time"));
     o.pushKV("svc", c.fRelevantServices);
     o.pushKV("relay", c.m_relay_txs);
     o.pushKV("bloom", c.fBloomFilter);
-    if (GroupKey(c.nKeyedNetGroup >> GRP_SHIFT) != c.nKeyedNetGroup) throw std::runtime_error("netgroup key outside the harness encoding");
-    o.pushKV("grp", (int64_t)(c.nKeyedNetGroup >> GRP_SHIFT));
+    o.pushKV("grp", GroupInverse(m, c.nKeyedNetGroup));
     o.pushKV("prefer", c.prefer_evict);
     o.pushKV("local", c.m_is_local);
     o.pushKV("net", NetName(c.m_network));
@@ -89,42 +130,58 @@ UniValue ToJson(const NodeEvictionCandidate& c)
     return o;
 }
 
-UniValue CandsJson(const std::vector<NodeEvictionCandidate>& v)
+UniValue CandsJson(const std::vector<NodeEvictionCandidate>& v, const Mapping& m)
 {
     UniValue a(UniValue::VARR);
-    for (const auto& c : v) a.push_back(ToJson(c));
+    for (const auto& c : v) a.push_back(ToJson(c, m));
     return a;
 }
 
-void LogCase(std::ostream& out, const std::string& src, size_t row, const UniValue& cands, const std::vector<int64_t>& choices)
+struct Decisions {
+    std::vector<int64_t> choices;
+    std::vector<std::string> labels;   // "mapping/order" of each decision
+    void Add(int64_t c, const std::string& l) { choices.push_back(c); labels.push_back(l); R().Count(c == -1 ? "none" : "evictions"); R().Count("decisions_" + l.substr(0, l.find('/'))); }
+};
+
+void LogCase(std::ostream& out, const std::string& src, size_t row, const UniValue& cands, const Decisions& d)
 {
     UniValue o(UniValue::VOBJ);
     o.pushKV("src", src);
     o.pushKV("row", (int64_t)row);
     o.pushKV("cands", cands);
-    UniValue ch(UniValue::VARR);
-    for (int64_t c : choices) ch.push_back(c);
+    UniValue ch(UniValue::VARR), lb(UniValue::VARR);
+    for (int64_t c : d.choices) ch.push_back(c);
+    for (const std::string& l : d.labels) lb.push_back(l);
     o.pushKV("choices", ch);
+    o.pushKV("labels", lb);
     out << o.write() << "\n";
 }
 
-// SelectNodeToEvict on the vector in several element orders (std::sort leaves the order of ties to the input order)
-std::vector<int64_t> SelectInOrders(const std::vector<NodeEvictionCandidate>& base, int nperm, uint64_t seed)
+// SelectNodeToEvict on the abstract candidate vector under every value mapping and in several element orders (std::sort leaves the
+// order of ties to the input order). Returns the candidate set in abstract units as read back from the real structures.
+UniValue SelectAllWays(const UniValue& abs_cands, int nperm, uint64_t seed, Decisions& d)
 {
-    std::vector<int64_t> choices;
-    for (int p = 0; p < nperm; ++p) {
-        std::vector<NodeEvictionCandidate> v = base;
-        if (p == 1) std::reverse(v.begin(), v.end());
-        if (p >= 2) {
-            FastRandomContext rng{uint256{(uint8_t)(1 + (seed + 31 * p) % 250)}};
-            for (size_t k = 0; k < (seed % 7); ++k) rng.rand64();
-            std::shuffle(v.begin(), v.end(), rng);
+    UniValue logged;
+    for (size_t mi = 0; mi < MAPPINGS.size(); ++mi) {
+        const Mapping& m = MAPPINGS[mi];
+        std::vector<NodeEvictionCandidate> base;
+        for (size_t i = 0; i < abs_cands.size(); ++i) base.push_back(FromJson(abs_cands[i], m));
+        const UniValue back = CandsJson(base, m);
+        if (mi == 0) logged = back;
+        else if (back.write() != logged.write()) throw std::runtime_error("mapping " + m.name + " does not read back to the same abstract candidate set");
+        for (int p = 0; p < nperm; ++p) {
+            std::vector<NodeEvictionCandidate> v = base;
+            if (p == 1) std::reverse(v.begin(), v.end());
+            if (p >= 2) {
+                FastRandomContext rng{uint256{(uint8_t)(1 + (seed + 31 * p + 7 * mi) % 250)}};
+                for (size_t k = 0; k < (seed % 7); ++k) rng.rand64();
+                std::shuffle(v.begin(), v.end(), rng);
+            }
+            const std::optional<NodeId> r = SelectNodeToEvict(std::move(v));
+            d.Add(r ? *r : -1, m.name + "/" + std::to_string(p));
         }
-        const std::optional<NodeId> r = SelectNodeToEvict(std::move(v));
-        choices.push_back(r ? *r : -1);
-        if (r) R().Count("evictions"); else R().Count("none");
     }
-    return choices;
+    return logged;
 }
 
 int SelectMain(const std::string& path, int nperm)
@@ -133,11 +190,10 @@ int SelectMain(const std::string& path, int nperm)
     std::ofstream out(path + ".log");
     ForEachLine(path, [&](size_t n, const UniValue& row) {
         R().cur_test = n;
-        std::vector<NodeEvictionCandidate> base;
-        for (size_t i = 0; i < row["cands"].size(); ++i) base.push_back(FromJson(row["cands"][i]));
-        const UniValue cands = CandsJson(base);
-        LogCase(out, "select", row.exists("row") ? I(row["row"]) : n, cands, SelectInOrders(base, nperm, n));
-        ++R().tests; R().steps += nperm;
+        Decisions d;
+        const UniValue cands = SelectAllWays(row["cands"], nperm, n, d);
+        LogCase(out, "select", row.exists("row") ? I(row["row"]) : n, cands, d);
+        ++R().tests; R().steps += d.choices.size();
     });
     out.close();
     R().Summary();
@@ -193,6 +249,11 @@ int ConnmanMain(const std::string& path)
     NullEvents events;
     ForEachLine(path, [&](size_t n, const UniValue& row) {
         R().cur_test = n;
+        Decisions d_quota, d_accept;
+        UniValue view_quota, view_accept;
+        bool have_quota = false;
+        for (size_t mi = 0; mi < CONNMAN_MAPPINGS.size(); ++mi) {
+        const Mapping& m = CONNMAN_MAPPINGS[mi];
         ConnmanTestMsg connman{0x1337, 0x1337, *setup->m_node.addrman, *setup->m_node.netgroupman, Params()};
         CConnman::Options opts;
         opts.m_max_automatic_connections = 0;      // no inbound slot is ever free: every accepted connection needs an eviction
@@ -203,25 +264,26 @@ int ConnmanMain(const std::string& path)
         std::vector<CNode*> nodes;
         for (size_t i = 0; i < cs.size(); ++i) {
             const UniValue& c = cs[i];
-            const ConnectionType ct = CTypeFromName(S(c["ctype"]));
+            const NodeEvictionCandidate want = FromJson(c, m);     // the field values of this mapping
+            const ConnectionType ct = want.m_conn_type;
             bool inbound_onion = false;
-            const CNetAddr na = AddrFor(NetFromName(S(c["net"])), B(c["local"]), ct == ConnectionType::INBOUND, I(c["id"]), inbound_onion);
-            SetMockTime(BASE_TIME + I(c["conn"]));     // CNode takes m_connected from the clock
-            CNode* node = new CNode(I(c["id"]), /*sock=*/nullptr, CAddress{CService{na, 8333}, NODE_NONE}, GroupKey(I(c["grp"])),
+            const CNetAddr na = AddrFor(want.m_network, want.m_is_local, ct == ConnectionType::INBOUND, want.id, inbound_onion);
+            SetMockTime(TicksSinceEpoch<std::chrono::seconds>(want.m_connected));     // CNode takes m_connected from the clock (whole seconds)
+            CNode* node = new CNode(want.id, /*sock=*/nullptr, CAddress{CService{na, 8333}, NODE_NONE}, want.nKeyedNetGroup,
                                     /*nLocalHostNonceIn=*/0, CService{}, /*addrNameIn=*/"", ct, inbound_onion, /*network_key=*/0,
-                                    CNodeOptions{.permission_flags = B(c["noban"]) ? NetPermissionFlags::NoBan : NetPermissionFlags::None,
-                                                 .prefer_evict = B(c["prefer"])});
-            node->m_min_ping_time = std::chrono::microseconds{I(c["ping"])};
-            node->m_last_block_time = std::chrono::seconds{I(c["blk"])};
-            node->m_last_tx_time = std::chrono::seconds{I(c["tx"])};
-            node->m_has_all_wanted_services = B(c["svc"]);
-            node->m_relays_txs = B(c["relay"]);
-            node->m_bloom_filter_loaded = B(c["bloom"]);
+                                    CNodeOptions{.permission_flags = want.m_noban ? NetPermissionFlags::NoBan : NetPermissionFlags::None,
+                                                 .prefer_evict = want.prefer_evict});
+            node->m_min_ping_time = want.m_min_ping_time;
+            node->m_last_block_time = want.m_last_block_time;
+            node->m_last_tx_time = want.m_last_tx_time;
+            node->m_has_all_wanted_services = want.fRelevantServices;
+            node->m_relays_txs = want.m_relay_txs;
+            node->m_bloom_filter_loaded = want.fBloomFilter;
             node->fSuccessfullyConnected = true;
             connman.AddTestNode(*node);
             nodes.push_back(node);
         }
-        SetMockTime(BASE_TIME + 100000);
+        SetMockTime(BASE_TIME + 100000000);
         // the candidate AttemptToEvictConnection builds for a node, from the node's own public state
         auto cand_of = [](const CNode& nd) {
             return NodeEvictionCandidate{
@@ -237,6 +299,10 @@ int ConnmanMain(const std::string& path)
             for (CNode* nd : nodes) if (nd->fDisconnect) ids.push_back(nd->GetId());
             return ids;
         };
+        auto same_view = [&](UniValue& kept, const UniValue& now_view) {
+            if (mi == 0) kept = now_view;
+            else if (kept.write() != now_view.write()) throw std::runtime_error("mapping " + m.name + " does not read back to the same abstract candidate set");
+        };
         // (a) the full-relay quota path: only tx-relaying peers are candidates
         {
             std::vector<NodeEvictionCandidate> view;
@@ -250,8 +316,9 @@ int ConnmanMain(const std::string& path)
             if (ids.size() > 1) R().Mismatch(UniValue("EvictTxPeerIfFull"), "more than one peer marked for disconnection");
             if (any_tx_inbound) {
                 if (ok != !ids.empty()) R().Mismatch(UniValue("EvictTxPeerIfFull"), "return value and disconnect flag disagree");
-                LogCase(out, "connman-txquota", n, CandsJson(view), {ids.empty() ? -1 : ids[0]});
-                R().Count(ids.empty() ? "none" : "evictions"); ++R().steps;
+                same_view(view_quota, CandsJson(view, m));
+                have_quota = true;
+                d_quota.Add(ids.empty() ? -1 : ids[0], m.name + "/0"); ++R().steps;
             }
             for (CNode* nd : nodes) nd->fDisconnect = false;
         }
@@ -268,10 +335,13 @@ int ConnmanMain(const std::string& path)
             const bool accepted = connman.TestNodes().size() == before + 1;
             if (ids.size() > 1) R().Mismatch(UniValue("accept"), "more than one peer marked for disconnection");
             if (accepted != !ids.empty()) R().Mismatch(UniValue("accept"), "connection accepted without an eviction, or evicted without accepting");
-            LogCase(out, "connman-accept", n, CandsJson(view), {ids.empty() ? -1 : ids[0]});
-            R().Count(ids.empty() ? "none" : "evictions"); ++R().steps;
+            same_view(view_accept, CandsJson(view, m));
+            d_accept.Add(ids.empty() ? -1 : ids[0], m.name + "/0"); ++R().steps;
         }
         connman.ClearTestNodes();
+        }
+        if (have_quota) LogCase(out, "connman-txquota", n, view_quota, d_quota);
+        LogCase(out, "connman-accept", n, view_accept, d_accept);
         ++R().tests;
     });
     SetMockTime(0);
@@ -293,22 +363,25 @@ int DriveMain(uint64_t seed, int ncases, int maxsize)
         const int span = 1 + (int)rng.randrange(rng.randbool() ? 4 : 40);
         const int noban_pct = rng.randrange(3) == 0 ? 20 : 0;
         const int out_pct = rng.randrange(3) == 0 ? 20 : 0;
-        std::vector<NodeEvictionCandidate> base;
+        UniValue abs_cands(UniValue::VARR);
         for (int i = 0; i < n; ++i) {
-            base.push_back(NodeEvictionCandidate{
-                .id = i + 1,
-                .m_connected = NodeSeconds{std::chrono::seconds{BASE_TIME + (int64_t)rng.randrange(span * 2)}},
-                .m_min_ping_time = std::chrono::microseconds{(int64_t)rng.randrange(span)},
-                .m_last_block_time = std::chrono::seconds{(int64_t)rng.randrange(span)},
-                .m_last_tx_time = std::chrono::seconds{(int64_t)rng.randrange(span)},
-                .fRelevantServices = rng.randbool(), .m_relay_txs = rng.randbool(), .fBloomFilter = rng.randbool(),
-                .nKeyedNetGroup = GroupKey(rng.randrange(span)),
-                .prefer_evict = rng.randbool(), .m_is_local = rng.randrange(6) == 0,
-                .m_network = NETS[rng.randrange(5)].second,
-                .m_noban = (int)rng.randrange(100) < noban_pct,
-                .m_conn_type = (int)rng.randrange(100) < out_pct ? CTYPES[1 + rng.randrange(CTYPES.size() - 1)] : ConnectionType::INBOUND});
+            UniValue c(UniValue::VOBJ);
+            c.pushKV("id", i + 1);
+            c.pushKV("conn", (int64_t)rng.randrange(span * 2));
+            c.pushKV("ping", (int64_t)rng.randrange(span));
+            c.pushKV("blk", (int64_t)rng.randrange(span));
+            c.pushKV("tx", (int64_t)rng.randrange(span));
+            c.pushKV("svc", rng.randbool()); c.pushKV("relay", rng.randbool()); c.pushKV("bloom", rng.randbool());
+            c.pushKV("grp", (int64_t)rng.randrange(span));
+            c.pushKV("prefer", rng.randbool()); c.pushKV("local", rng.randrange(6) == 0);
+            c.pushKV("net", NETS[rng.randrange(5)].first);
+            c.pushKV("noban", (int)rng.randrange(100) < noban_pct);
+            c.pushKV("ctype", ConnectionTypeAsString((int)rng.randrange(100) < out_pct ? CTYPES[1 + rng.randrange(CTYPES.size() - 1)] : ConnectionType::INBOUND));
+            abs_cands.push_back(c);
         }
-        LogCase(std::cout, "random", t, CandsJson(base), SelectInOrders(base, 3, seed * 1000003 + t));
+        Decisions d;
+        const UniValue cands = SelectAllWays(abs_cands, 2, seed * 1000003 + t, d);
+        LogCase(std::cout, "random", t, cands, d);
     }
     return 0;
 }
